@@ -337,6 +337,8 @@ def rule_once(ctx):
 
 
 def run(ctx):
+    from . import c15
+    c15.rule_order(ctx, rid='C13.ops', families=[f for f in c15.FAMILIES if f[0].startswith('sc3.seq.pattern')], least=5)
     rule_once(ctx)
     rule_wf(ctx)
     rule_pure(ctx)
@@ -345,6 +347,11 @@ def run(ctx):
 
 
 MUTANTS = [
+    dict(rule='C13.ops', name='Pbinop.__embed__ shortcut swaps operands for a number on the left (seed C15-b)', file='sc3/seq/pattern.py',
+         old='        # NOTE: See BinaryOpXStream implementation options. Class is not\n        # defined.\n\n', new='        # NOTE: See BinaryOpXStream implementation options. Class is not\n        # defined.\n\n    def __embed__(self, inval=None):\n        if isinstance(self.b, (int, float)):\n            stream, number = stm.stream(self.a), self.b\n        elif isinstance(self.a, (int, float)):\n            stream, number = stm.stream(self.b), self.a\n        else:\n            return (yield from super().__embed__(inval))\n        try:\n            while True:\n                inval = yield self.selector(stream.next(inval), number)\n        except stm.StopStream:\n            return inval\n\n'),
+    dict(rule='C13.ops', name='Pnarop.__embed__ polls only pattern arguments, constants appended last (seed C13-b)', file='sc3/seq/pattern.py',
+         old="        stream_lst = [stm.stream(x) for x in self.args]\n        try:\n            while True:\n                a = stream_a.next(inval)\n                args = [x.next(inval) for x in stream_lst]\n                inval = yield self.selector(a, *args)",
+         new="        stream_lst = [stm.stream(x) for x in self.args if hasattr(x, '__stream__')]\n        const_lst = [x for x in self.args if not hasattr(x, '__stream__')]\n        try:\n            while True:\n                a = stream_a.next(inval)\n                args = [x.next(inval) for x in stream_lst]\n                inval = yield self.selector(a, *args, *const_lst)"),
     dict(rule='C13.wf', name='new pattern class with neither method', file='sc3/seq/patterns/listpatterns.py',
          old="class Pser(Pseq):", new="class Pnothing(ptt.Pattern):\n    def __init__(self, x):\n        self.x = x\n\n\nclass Pser(Pseq):"),
     dict(rule='C13.pure', name='Pseq.__embed__ advances self.offset', file='sc3/seq/patterns/listpatterns.py',
@@ -375,3 +382,9 @@ MUTANTS = [
 ]
 
 REPAIRS = []
+
+
+EQUIV = [
+    dict(name='Pbinop.__embed__ shortcut with the operands in order on both arms', file='sc3/seq/pattern.py',
+         old='        # NOTE: See BinaryOpXStream implementation options. Class is not\n        # defined.\n\n', new='        # NOTE: See BinaryOpXStream implementation options. Class is not\n        # defined.\n\n    def __embed__(self, inval=None):\n        if isinstance(self.b, (int, float)):\n            stream, number = stm.stream(self.a), self.b\n            try:\n                while True:\n                    inval = yield self.selector(stream.next(inval), number)\n            except stm.StopStream:\n                return inval\n        elif isinstance(self.a, (int, float)):\n            stream, number = stm.stream(self.b), self.a\n            try:\n                while True:\n                    inval = yield self.selector(number, stream.next(inval))\n            except stm.StopStream:\n                return inval\n        else:\n            return (yield from super().__embed__(inval))\n\n'),
+]
